@@ -543,7 +543,7 @@ def gen_align(rng):
     te = rng.getrandbits(1)
     mode = rng.choice(['usr', 'sys', 'svc'])
     D = G.DATA + 0x400
-    kind = rng.choice(['ldr', 'str', 'ldrh', 'strh', 'ldrd', 'strd', 'ldm', 'stm', 'push', 'pop'])
+    kind = rng.choice(['ldr', 'str', 'ldrh', 'strh', 'ldrd', 'strd', 'ldm', 'stm', 'push', 'pop'] + (['push_w', 'pop_w'] if thumb else []))
     rt, rn = rng.randrange(0, 6), 7
     mis = rng.choice([1, 2, 3])
     a_bit = 1
@@ -577,6 +577,16 @@ def gen_align(rng):
         wb = 1
         first = D + mis
         a_bit = rng.getrandbits(1)
+    elif kind in ('push_w', 'pop_w'):
+        # 32-bit Thumb PUSH.W / POP.W with two or more registers (encoding T2): word-aligned accesses only
+        size = 4
+        lst = rng.choice([0x03, 0x06, 0x0F, 0x15, 0x3F, 0x30, 0x1100, 0x0180])
+        rn = 13
+        word = (0xE92D0000 | lst) if kind == 'push_w' else (0xE8BD0000 | lst)
+        wb = 1
+        n = bin(lst).count('1')
+        first = D + mis - (4 * n if kind == 'push_w' else 0)
+        a_bit = rng.getrandbits(1)
     else:
         size = 4
         lst = rng.choice([0x03, 0x06, 0x0F, 0x15, 0x3F, 0x30])
@@ -593,7 +603,7 @@ def gen_align(rng):
     mpu[0] = (1 | 31 << 1, 0, 3 << 8)
     core, meta = _one_shot_case(rng, word, thumb, mode, te, regs, mpu, {}, arch=rng.choice([6, 7]))   # ARMv6 with U=1: unaligned MemA accesses fault like on ARMv7
     core['regs']['sys']['sctlr'] = G.sctlr_value(m=rng.getrandbits(1), a=a_bit, u=1, te=te, v=0, br=1, ee=(core['regs']['sys']['sctlr'] >> 25) & 1)
-    return {'scenario': 'align', 'cores': [core], 'meta': meta, 'word': word, 'kind': kind, 'first': first, 'size': size, 'rn': rn, 'wb': wb, 'write': kind in ('str', 'strh', 'strd', 'stm', 'push'),
+    return {'scenario': 'align', 'cores': [core], 'meta': meta, 'word': word, 'kind': kind, 'first': first, 'size': size, 'rn': rn, 'wb': wb, 'write': kind in ('str', 'strh', 'strd', 'stm', 'push', 'push_w'),
             'events': [], 'max_ticks': 200}
 
 
